@@ -522,7 +522,16 @@ Proof.
   rewrite E. cbn [fst]. destruct (command_error_code files r code cerr Hr Hc) as [(-> & _ & ->)|(-> & cmd & errs & m & _ & ->)]; eauto.
 Qed.
 
-Theorem exit_zero_iff_clean p :
+(** success records no check error *)
+Lemma impl_ok_check p :
+  fst (fst (run_cli_impl p)) = IOk -> st_check (snd (fst (run_cli_impl p))) = [].
+Proof.
+  destruct (pre_ok p) eqn:E.
+  - rewrite (impl_pre_ok p E). cbn [fst snd]. intro H. now rewrite run_commands_ok_check.
+  - destruct (impl_pre_fail p E) as (cmd & errs & files & ->). discriminate.
+Qed.
+
+Theorem exit_zero_iff_clean_guarded p :
   crashed (run p) = false -> (exit_status (run p) = 0 <-> clean p = true).
 Proof.
   intro Hc. destruct (run p) as [code out err w|l w] eqn:E; [|discriminate]. cbn [exit_status].
@@ -530,15 +539,47 @@ Proof.
   destruct (exit_code_cases p code out err w E) as [[-> ->]|[-> (cmd & errs & ->)]]; split; auto; discriminate.
 Qed.
 
-(** a panic anywhere ends with status 0 although the run is not clean *)
+(** a run that records no check error renders in the human format whatever the file store *)
+Lemma human_text_no_check files x cerr : st_check x = [] -> exists t, human_text files x cerr = Some t.
+Proof. intro H. unfold human_text. rewrite H. cbn. eauto. Qed.
+
+(** a clean run does not crash *)
+Lemma clean_not_crashed p : clean p = true -> crashed (run p) = false.
+Proof.
+  intro Hc. pose proof (proj2 (impl_ok_iff_clean p) Hc) as Hok. pose proof (impl_ok_check p Hok) as Hck.
+  unfold run. destruct (run_cli_impl p) as [[r x] files]. cbn [fst snd] in Hok, Hck. subst r.
+  cbn [command_error]. destruct (pj_format p); cbn [render]; try reflexivity.
+  destruct (human_text_no_check files x None Hck) as (t & ->). reflexivity.
+Qed.
+
+(** exit status 0 exactly when no stage reports anything — a panic is status 101 *)
+Theorem exit_zero_iff_clean p : exit_status (run p) = 0 <-> clean p = true.
+Proof.
+  split.
+  - intro H. destruct (crashed (run p)) eqn:Hc.
+    + destruct (run p); [discriminate|]. cbn in H. discriminate.
+    + now apply exit_zero_iff_clean_guarded.
+  - intro H. apply exit_zero_iff_clean_guarded; [now apply clean_not_crashed|exact H].
+Qed.
+
+Theorem exit_status_cases p : exit_status (run p) = 0 \/ exit_status (run p) = 1 \/ exit_status (run p) = 101.
+Proof.
+  destruct (run p) as [code out err w|l w] eqn:E; [|right; right; reflexivity]. cbn [exit_status].
+  destruct (exit_code_cases p code out err w E) as [[-> _]|[-> _]]; auto.
+Qed.
+
+Theorem crash_exit_status p : crashed (run p) = true -> exit_status (run p) = 101.
+Proof. destruct (run p); [discriminate|reflexivity]. Qed.
+
+(** a panic (here: of the operation type printer): status 101, not clean, the files written before it stay *)
 Definition panic_witness : proj :=
   mk_proj (s "/w") [s "generate"] Json CfgOk [] false
     [mk_schf (s "/w/schema.graphql") (s "type Query { a: Int }") None] []
     [mk_opf (s "/w/q.graphql") (s "query Q { a } fragment U on Query { nonexistent }") None None None [] SPanic]
     None [] [] (mk_gencfg WithLoaderTS50 (Some (s "out/schema.d.ts")) None None false false) SOk SOk SOk.
 
-Lemma panic_exits_zero_refuted :
-  exists p, exit_status (run p) = 0 /\ clean p = false /\ outcome_written (run p) <> [].
+Lemma crash_witness :
+  exists p, crashed (run p) = true /\ exit_status (run p) = 101 /\ clean p = false /\ outcome_written (run p) <> [].
 Proof. exists panic_witness. vm_compute. repeat split. discriminate. Qed.
 
 (** stdout is one JSON value *)
@@ -652,15 +693,6 @@ Proof.
   exists (json_tree files x cerr). split; [apply parse_print_json|].
   unfold render in R. injection R as _ <-.
   apply json_listed_tree. pose proof (impl_inv p) as I. now rewrite E in I.
-Qed.
-
-(** success records no check error *)
-Lemma impl_ok_check p :
-  fst (fst (run_cli_impl p)) = IOk -> st_check (snd (fst (run_cli_impl p))) = [].
-Proof.
-  destruct (pre_ok p) eqn:E.
-  - rewrite (impl_pre_ok p E). cbn [fst snd]. intro H. now rewrite run_commands_ok_check.
-  - destruct (impl_pre_fail p E) as (cmd & errs & files & ->). discriminate.
 Qed.
 
 Lemma collect_nil_check files : collect json_check_diag (map (check_error_json files) []) = Some [].
@@ -861,9 +893,10 @@ Proof.
 Qed.
 
 (** a position on a line that str::lines does not yield (one past the last line of a text that ends with a
-    newline — where a parser reports a missing closing brace) is printed as the bare message *)
-Theorem message_for_line_bare path src p err additional :
-  N.of_nat (length (lines src)) <= p_line p -> message_for_line path src p err additional = err.
+    newline — where a parser reports a missing closing brace): the location and the bare message *)
+Theorem message_for_line_no_line path src p err additional :
+  N.of_nat (length (lines src)) <= p_line p ->
+  message_for_line path src p err additional = location_line path p ++ err.
 Proof.
   intro Hl. unfold message_for_line.
   match goal with |- (if negb (existsb ?f ?l) then _ else _) = _ => destruct (existsb f l) eqn:E end; [|reflexivity].
@@ -871,20 +904,50 @@ Proof.
   apply In_firstn, In_skipn, enumerate_from_bound in Hin. lia.
 Qed.
 
-(** otherwise (the line exists and a line around it has a non-blank character) the text starts with
-    path:line:column, 1-based *)
-Theorem message_for_line_located path src p err additional mi :
-  existsb (fun il => N.eqb (fst il) (p_line p))
-          (firstn 5 (skipn (N.to_nat (p_line p - 2)) (enumerate_from 0 (lines src)))) = true ->
-  min_indent (firstn 5 (skipn (N.to_nat (p_line p - 2)) (enumerate_from 0 (lines src)))) = Some mi ->
-  exists rest,
-    message_for_line path src p err additional
-    = (if additional then INDENT else []) ++ path ++ [58] ++ dec (p_line p + 1) ++ [58] ++ dec (p_col p + 1) ++ [10] ++ rest.
+(** in every case the text carries path:line:column (1-based), at its start or after the indentation of
+    additional information *)
+Theorem message_for_line_located path src p err additional :
+  exists ind rest, (ind = [] \/ ind = INDENT)
+    /\ message_for_line path src p err additional = ind ++ location_line path p ++ rest.
 Proof.
-  intros H1 H2. unfold message_for_line. rewrite H1, H2. cbn [negb]. eexists. reflexivity.
+  unfold message_for_line.
+  destruct (negb (existsb _ _)); [exists [], err; auto|].
+  destruct (min_indent _) as [mi|]; [|exists [], err; auto].
+  eexists; eexists; split; [|reflexivity]. destruct additional; auto.
 Qed.
 
-(** witnesses: exit 1, a positioned parse error, and no "path:line:column" anywhere in the output *)
+Lemma message_for_line_primary path src p err :
+  exists rest, message_for_line path src p err false = location_line path p ++ rest.
+Proof.
+  unfold message_for_line.
+  destruct (negb (existsb _ _)); [exists err; reflexivity|].
+  destruct (min_indent _) as [mi|]; [|exists err; reflexivity].
+  cbn [app]. eexists. reflexivity.
+Qed.
+
+Lemma render_additional_prefix files add : forall acc m,
+  render_additional files acc add = Some m -> exists rest, m = acc ++ rest.
+Proof.
+  induction add as [|[q msg] r IH]; intros acc m H; cbn [render_additional] in H.
+  - inversion H. exists []. now rewrite app_nil_r.
+  - destruct (p_builtin q); [eauto|]. destruct (get_file files (p_file q)); [|discriminate].
+    destruct (IH _ _ H) as (rest & ->). rewrite <- !app_assoc. eauto.
+Qed.
+
+(** every positioned, non-built-in error is printed starting with the path of the file its position names,
+    its line and its column *)
+Theorem positioned_error_located files e p m :
+  print_positioned_error files e = Some m -> e_pos e = Some p -> p_builtin p = false ->
+  exists f rest, get_file files (p_file p) = Some f /\ m = location_line (f_path f) p ++ rest.
+Proof.
+  unfold print_positioned_error. intros H Hp Hb. rewrite Hp, Hb in H.
+  destruct (get_file files (p_file p)) as [f|]; [|discriminate].
+  destruct (render_additional_prefix _ _ _ _ H) as (rest & ->).
+  destruct (message_for_line_primary (f_path f) (f_src f) p (e_msg e)) as (rest' & ->).
+  exists f, (rest' ++ rest). split; [reflexivity|]. now rewrite <- app_assoc.
+Qed.
+
+(** the former finding: a parse error at the end of a file that ends with a newline is now located, in all formats *)
 Definition eof_witness (f : fmt) : proj :=
   mk_proj (s "/w") [s "check"] f CfgOk [] false
     [mk_schf (s "/w/schema.graphql") (s "type Query { a: Int }
@@ -893,11 +956,22 @@ Definition eof_witness (f : fmt) : proj :=
 ") (Some (mkerr (s "Parse error: expected Selection") (Some (mkpos 1 0 1 false)) [])) None None [] SOk]
     None [] [] (mk_gencfg WithLoaderTS50 (Some (s "out/schema.d.ts")) None None false false) SOk SOk SOk.
 
-Lemma parse_error_at_end_of_input_not_located_refuted :
-  forall f, exists out err w,
-    run (eof_witness f) = Exit 1 out err w
-    /\ locations_of (s "/w/q.graphql") out = [] /\ locations_of (s "/w/q.graphql") err = [].
-Proof. intros [| |]; eexists; eexists; eexists; vm_compute; repeat split. Qed.
+Definition run_texts (p : proj) : option (N * list str) :=
+  match run p with
+  | Exit code out err _ =>
+      match pj_format p with
+      | Human => Some (code, [err])
+      | Json => match parse_json out with Some t => Some (code, json_messages t) | None => None end
+      | Rdjson => match parse_json out with Some t => Some (code, rdjson_messages t) | None => None end
+      end
+  | Crash _ _ => None
+  end.
+
+Example parse_error_at_end_of_input_located :
+  forall f, exists texts,
+    run_texts (eof_witness f) = Some (1, texts)
+    /\ flat_map (locations_of (s "/w/q.graphql")) texts = [(2, 1)].
+Proof. intros [| |]; eexists; vm_compute; split; reflexivity. Qed.
 
 (** an error value of a printer reaches the driver without position (the blanket From impl drops it) *)
 Definition scalar_witness (f : fmt) : proj :=
@@ -909,10 +983,17 @@ type Query { d: Date }
     (SErr (plain (s "Type for scalar 'Date' is not provided"))) SOk SOk.
 
 Lemma generate_error_not_located_refuted :
-  forall f, exists out err w,
-    run (scalar_witness f) = Exit 1 out err w
-    /\ locations_of (s "/w/schema.graphql") out = [] /\ locations_of (s "/w/schema.graphql") err = [].
-Proof. intros [| |]; eexists; eexists; eexists; vm_compute; repeat split. Qed.
+  forall f, exists texts,
+    run_texts (scalar_witness f) = Some (1, texts)
+    /\ flat_map (locations_of (s "/w/schema.graphql")) texts = []
+    /\ match run (scalar_witness f) with
+       | Exit _ out _ _ => match f with Human => True | _ => exists t, parse_json out = Some t /\ (json_diags t = Some [] \/ rdjson_diags t = Some []) end
+       | Crash _ _ => False
+       end.
+Proof.
+  intros [| |]; eexists; vm_compute; (split; [reflexivity|split; [reflexivity|]]); auto;
+    eexists; split; try reflexivity; auto.
+Qed.
 
 (** * non-vacuity: the guards of the theorems are met by ordinary projects *)
 
